@@ -212,7 +212,7 @@ static int vi_wswap(void)
 	if (w_cnt != 2)
 		return 1;
 	w_cur = 1 - w_cur;
-	return 0;
+	return vi_switch(w_cur);	/* the window's rows on the terminal */
 }
 
 static void vi_wfix(void)
